@@ -390,8 +390,10 @@ def with_limit(seconds, fn):
         signal.signal(signal.SIGALRM, old)
 
 
-def call_balance(clr, o, chunksize, mapf, limit=60.0):
-    """balance_cooler through the public API; returns dict or 'timeout' / 'error:<Type>'"""
+def call_balance(clr, o, chunksize, mapf, limit=60.0, **override):
+    """balance_cooler through the public API; returns dict or 'timeout' / 'error:<Type>'.
+    override: keyword arguments passed verbatim instead of the ones derived from o (e.g. ignore_diags=False,
+    blacklist=[...] as a list, use_lock=True)"""
     import cooler
 
     def go():
@@ -403,6 +405,7 @@ def call_balance(clr, o, chunksize, mapf, limit=60.0):
                   blacklist=None if o["black"] is None else np.array(o["black"], dtype=int),
                   rescale_marginals=o["rescale"], x0=x0, tol=o["tol"], max_iters=o["iters"],
                   chunksize=chunksize, map=mapf)
+        kw.update(override)
         w, st = cooler.balance_cooler(clr, **kw)
         return {"w": np.array(w, dtype=float),
                 "scale": np.atleast_1d(np.array(st["scale"], dtype=float)),
